@@ -284,7 +284,7 @@ func (rp *Report) absorb(j Job, st *wx.Stats, accept func(f *wx.Failure, lastKin
 		// confirm: replay 5 times on fresh runs
 		okN := 0
 		for i := 0; i < 5; i++ {
-			_, f, _ := wx.Replay(j.Sc, fo.Path, true)
+			_, f, _ := wx.ReplayFull(j.Sc, fo.Path)
 			if f != nil && f.Sig == fo.Sig {
 				okN++
 			}
